@@ -1639,3 +1639,39 @@ def r124(ctx: Ctx) -> RuleReport:
             else:
                 rep.undecided(key, fi.loc(n), norm(body[0])[:40])
     return rep
+
+
+# ---------------------------------------------------------------------------------------------
+@rule('R133', 'configuration hands every marker of a triple on to the branch it becomes: the marker list of a datum is not filtered on the way')
+def r133(ctx: Ctx) -> RuleReport:
+    rep = RuleReport('R133', r133.title, floor=1)
+    fi = ctx.repo.func(L, '_configure_node')
+    unp = [n for n in walk_local(fi.node) if isinstance(n, ast.Assign) and isinstance(n.targets[0], ast.Tuple) and len(n.targets[0].elts) == 3
+           and isinstance(n.value, ast.Name) and all(isinstance(e, ast.Name) for e in n.targets[0].elts) and 'datum' in n.value.id]
+    if len(unp) != 1:
+        rep.undecided(f'{fi.fq}: `triple, push, epis = datum`', fi.loc(), f'{len(unp)} such statements')
+        return rep
+    E_ = unp[0].targets[0].elts[2].id
+    key = f'{fi.fq}: `{E_}` reaches the branch unchanged'
+    rebinds = [n for n in walk_local(fi.node) if n is not unp[0] and ((isinstance(n, ast.Assign) and any(isinstance(x, ast.Name) and x.id == E_ for t in n.targets for x in ast.walk(t)))
+                                                                      or (isinstance(n, ast.AugAssign) and isinstance(n.target, ast.Name) and n.target.id == E_))]
+    muts = [n for n in walk_local(fi.node) if isinstance(n, ast.Call) and isinstance(n.func, ast.Attribute) and norm(n.func.value) == E_
+            and n.func.attr in ('remove', 'pop', 'clear', '__delitem__')] + \
+        [n for n in walk_local(fi.node) if isinstance(n, ast.Delete) and any(isinstance(t, ast.Subscript) and norm(t.value) == E_ for t in n.targets)]
+    used = [n for n in walk_local(fi.node) if isinstance(n, ast.Call) and isinstance(n.func, ast.Attribute) and n.func.attr in ('append', 'insert') and n.args
+            and isinstance(n.args[-1], ast.Tuple) and any(isinstance(x, ast.Name) and x.id == E_ for x in n.args[-1].elts)]
+    if not used:
+        rep.undecided(key, fi.loc(), f'no branch tuple that contains `{E_}` is appended')
+        return rep
+    for n in rebinds + muts:
+        v = getattr(n, 'value', None)
+        drops = isinstance(v, (ast.ListComp, ast.GeneratorExp)) and any(g.ifs for g in v.generators) or isinstance(v, ast.Subscript) or n in muts or \
+            (isinstance(v, ast.Call) and norm(v.func) in ('list', 'tuple') and v.args and isinstance(v.args[0], ast.Call) and norm(v.args[0].func) in ('filter', 'filterfalse', 'itertools.filterfalse'))
+        if drops:
+            rep.violation(key, fi.loc(n), f'`{norm(n)[:70]}` removes markers from the list before the branch is built: alignments (or other markers) that the text wrote on this '
+                          f'relation are missing from the tree, so decode followed by encode does not reproduce the text')
+        else:
+            rep.undecided(key, fi.loc(n), f'`{E_}` is re-bound: {norm(n)[:60]}')
+    if not rebinds and not muts:
+        rep.ok(key, fi.loc(used[0]), norm(used[0])[:60])
+    return rep
